@@ -340,6 +340,62 @@ theorem bf_path_cost_eq_reported (g : Graph) (hwf : ∀ e ∈ g.edges, e.src < g
           congr 1
           omega
 
+/-- Rate in DFS mode (partial): the recommended path is a walk from the source to the target whose
+cost is AT MOST the reported distance — the path is never worse than the rate `to` reports.
+(Equality, which Bellman–Ford mode has, is not proved here: it needs "every improvement of a token
+re-explores all its successors within the step limit or leaves a cyclic / over-long chain";
+a search over 2 000 000 random graphs on the real code found no recommended path whose cost
+differs from the reported distance.) -/
+theorem dfs_path_cost_le_reported_partial (g : Graph) (src tgt : Nat) (r : Dist × Pred)
+    (h : dfs g src = .ok r) (hne : (toPath g src tgt r.1 r.2).2 ≠ []) :
+    ∃ es : List Edge, isWalk g src es = true ∧ walkEnd src es = tgt ∧
+      es.map (·.market) = (toPath g src tgt r.1 r.2).2 ∧
+      ∃ dt, (toPath g src tgt r.1 r.2).1 = some dt ∧ walkCost es ≤ dt := by
+  obtain ⟨hJ, hT, h0⟩ := dfs_ok h
+  unfold toPath at hne ⊢
+  by_cases h1 : tgt ≥ g.n
+  · simp [h1] at hne
+  · by_cases h2 : src = tgt
+    · simp [h1, h2] at hne
+    · simp only [h1, h2, if_false] at hne ⊢
+      cases hw : walk r.2 g.maxSteps (g.maxSteps + 2) (r.2 tgt) 0 [] with
+      | none => simp [hw] at hne
+      | some path =>
+        simp only [hw] at hne ⊢
+        by_cases h3 : path.isEmpty
+        · simp [h3] at hne
+        · simp only [h3]
+          obtain ⟨x, es, hm, hwk, hend, hx, hcost⟩ :=
+            walk_chain_cost g src r.1 r.2 hJ hT g.maxSteps tgt _ tgt 0 [] path [] rfl rfl rfl
+              (Or.inl rfl) (fun hh => absurd rfl hh) hw
+          have hes : es ≠ [] := by
+            intro he; subst he
+            simp at hm
+            subst hm; simp at h3
+          have hxs : x = src := by
+            rcases hx with hx | hx
+            · exact absurd hx hes
+            · exact hx
+          subst hxs
+          obtain ⟨dx, dt, hdx, hdt, hle⟩ := hcost hes
+          rw [h0] at hdx; cases hdx
+          exact ⟨es, hwk, hend, hm, dt, hdt, by omega⟩
+
+/-- **Validity of every recommendation, all clauses, all modes** (Bellman–Ford, DFS, DFS fallback):
+for every graph whose markets join a fixed token pair, every source, target and step limit, a
+non-empty path returned by `best_swap_paths(..).to(target)` is the market list of a walk in the
+graph — consecutive edges share the token, every edge exists and carries an estimate — that
+starts at the source, ends at the target, has at most `max_steps` markets and repeats no market. -/
+theorem recommended_path_valid (g : Graph) (hm : MarketsWF g) (src tgt : Nat) (skip : Bool)
+    (d : Dist) (p : Pred) (a : Option Bool) (h : bestSwapPaths g src skip = .ok (d, p, a))
+    (hne : (toPath g src tgt d p).2 ≠ []) :
+    ∃ es : List Edge, es.map (·.market) = (toPath g src tgt d p).2 ∧
+      isWalk g src es = true ∧ walkEnd src es = tgt ∧
+      (toPath g src tgt d p).2.length ≤ g.maxSteps ∧ (toPath g src tgt d p).2.Nodup := by
+  obtain ⟨es, h1, h2, h3⟩ := to_path_starts_at_source g src tgt skip d p a h hne
+  exact ⟨es, h1, h2, h3, to_path_bounded g src tgt d p,
+    to_path_no_repeated_market g hm src tgt skip d p a h⟩
+
 /-- `arbitrage_exists` is `Some(false)` exactly when Bellman–Ford succeeded, `Some(true)` exactly
 when it reported a negative cycle, `None` when it was skipped. -/
 theorem arbitrage_flag (g : Graph) (src : Nat) (skip : Bool) (d : Dist) (p : Pred) (a : Option Bool)
@@ -366,6 +422,18 @@ theorem arbitrage_flag (g : Graph) (src : Nat) (skip : Bool) (d : Dist) (p : Pre
         exact ⟨by simp, (fun x => by cases x), fun _ => hr⟩
       · cases h
     · cases h
+
+/-- **Reported distance = cost of the recommended path** when no arbitrage was detected
+(`arbitrage_exists = Some(false)`, i.e. Bellman–Ford mode); in the DFS modes the path costs at most
+the reported distance (`dfs_path_cost_le_reported_partial`). -/
+theorem recommended_path_cost (g : Graph) (hwf : ∀ e ∈ g.edges, e.src < g.n) (src tgt : Nat)
+    (d : Dist) (p : Pred) (h : bestSwapPaths g src false = .ok (d, p, some false))
+    (hne : (toPath g src tgt d p).2 ≠ []) :
+    ∃ es : List Edge, isWalk g src es = true ∧ walkEnd src es = tgt ∧
+      es.map (·.market) = (toPath g src tgt d p).2 ∧ (toPath g src tgt d p).1 = some (walkCost es) := by
+  obtain ⟨r, hr, rfl, rfl⟩ := (arbitrage_flag g src false d p (some false) h).2.1 rfl
+  obtain ⟨es, h1, h2, h3, _, h5⟩ := bf_path_cost_eq_reported g hwf src tgt r hr hne
+  exact ⟨es, h1, h2, h3, h5⟩
 
 /-! ### Findings: concrete graphs on which the literal property fails -/
 
